@@ -1,7 +1,7 @@
 //! Correspondence streams built from the generators.
 use crate::gen;
 use crate::proggen::{self, Profile};
-use crate::progrun::run_program;
+use crate::progrun::{run_program, run_program_rep};
 use crate::rng::Rng;
 
 type Emit<'a> = &'a mut dyn FnMut(String, String);
@@ -35,7 +35,8 @@ pub fn prog(rng: &mut Rng, count: u64, profile: &str, emit: Emit) {
     for _ in 0..count {
         let g = proggen::program(rng, profile_of(profile));
         let text = proggen::render_program(&g.stmts);
-        let out = run_program(&text, g.cycles, &g.mem, &format!("(tags {}) (text {})", g.tags.join(" "), sexp_escape(&text)));
+        let repeats: u32 = std::env::var("VERIF_REPEATS").ok().and_then(|x| x.parse().ok()).unwrap_or(4);
+        let out = run_program_rep(&text, g.cycles, &g.mem, &format!("(tags {}) (text {})", g.tags.join(" "), sexp_escape(&text)), repeats);
         match out.request {
             Some(req) => emit(req, out.result),
             None => emit(format!("(noparse {})", sexp_escape(&text)), out.result),
